@@ -508,9 +508,14 @@ pub fn run_batch<S: Scenario>(sc: &S, env: &Env, n_runs: u64) -> BatchReport {
     }
 
     let mut exit_code = 0;
-    for (idx, e) in &acc.harness_errors {
-        println!("HARNESS-ERROR: property={} run={} {}", sc.id(), idx, e);
+    for (k, (idx, e)) in acc.harness_errors.iter().enumerate() {
+        if k < 5 {
+            println!("HARNESS-ERROR: property={} run={} {}", sc.id(), idx, e);
+        }
         exit_code = 2;
+    }
+    if acc.harness_errors.len() > 5 {
+        println!("HARNESS-ERROR: property={} ... and {} more runs with harness errors", sc.id(), acc.harness_errors.len() - 5);
     }
 
     // triage violations: lowest run index first, at most 8 distinct keys
